@@ -154,15 +154,19 @@ func WriteMultipartFormFile(w *multipart.Writer, fieldName, fileName string, r i
 	return err
 }
 
+// quoteEscaper escapes backslashes and quotes inside a quoted-string parameter value,
+// as mime/multipart does for the parts it writes itself.
+var quoteEscaper = strings.NewReplacer("\\", "\\\\", `"`, "\\\"")
+
 func CreateMultipartHeader(param, fileName, contentType string) textproto.MIMEHeader {
 	hdr := make(textproto.MIMEHeader)
 
 	var contentDispositionValue string
 	if len(strings.TrimSpace(fileName)) == 0 {
-		contentDispositionValue = fmt.Sprintf(`form-data; name="%s"`, param)
+		contentDispositionValue = fmt.Sprintf(`form-data; name="%s"`, quoteEscaper.Replace(param))
 	} else {
 		contentDispositionValue = fmt.Sprintf(`form-data; name="%s"; filename="%s"`,
-			param, fileName)
+			quoteEscaper.Replace(param), quoteEscaper.Replace(fileName))
 	}
 	hdr.Set("Content-Disposition", contentDispositionValue)
 
